@@ -12,1174 +12,1195 @@ Definition show_fres (r : fres) : string :=
   end.
 Definition check (rs : list rune) : string := digest (show_fres (format_res rs)).
 Definition full (rs : list rune) : string := show_fres (format_res rs).
-Eval vm_compute in ("<<<M1642>>>" ++ check (runes_of_ascii "
-MetaData Logon
+Eval vm_compute in ("<<<M1889>>>" ++ check (runes_of_ascii "// c
+  	packet uint8x{
 
-    {
+    @tag( 65535	)
 
-char[]
-u8x,
-	matchKey
-pack
-,	u8
-    int
-``
-, char[
+x_y_z,char[]
 
-007
+a1  @calculatedFrom(
 
-]
-    msg_type,
+""`tick`""
+) , @tag( 1) @tag(  1 )@tag( 4294967296
+	)  repeat string rootA  `tab	here` ,repeat i32
 
-    BodyLength o
-	,
-
-    string_
-crc	`a\`	,}
-
-options {
-
-//x
-trueish
-    = 
-int16  Packet
-= char
-    MetaDataX  =	char[ 
-    //
-
-// trailing space 
-
-255  ] // a // b
-
-; }
-    root 
-
-    //
-	packet
-a1 	 // packet A { u8 x, }
-
+tag, }packet
+pack 
 {
-} root
+    @calculatedFrom(
+    ""// no comment"")
 
-    packet // c
-	MetaDataX
-	{
-	@lengthOf(  _x
-	)  repeat
-    Logon{ // " ++ [128512]%N ++ runes_of_ascii " emoji
-	o
-a1
-    , uint64
-	u128,
-	} , zchar[
-	007
-    ]chars`line1
-line2`, repeat	Header
-u128
-`doc`
-,	// " ++ [128512]%N ++ runes_of_ascii " emoji
-@calculatedFrom(  ""1""
-)	int
-	trueish
+@lengthOf( uint8x
+    )	string
+zchar @calculatedFrom(
+""`tick`""
+    ) 
 ,
-	char[ 
-0123456789
+	}root  packet
 
-]	uint8x
-	,i8
+tag
+	{ 	 // trailing space 
+@tag(
+    42/// triple
+		)
 
-    int
-	@lengthOf(msg_type 
-)
-	`line1
-line2`
+    @lengthOf(As )  @leftPad  ( '0'
+    ) match u128
 
-    , 
-        //x
-  @rightPad
-	( )
+    as
 
-repeat f64
-    Z9_ 
-,	metadata {	falsey
+float { [
 
-@calculatedFrom(	""abc""
-    )
-	,
+    00] :  charz  ,
+
 }
-,
-	options1
-@calculatedFrom(	""\n"" 
-), @calculatedFrom( 
-""\n""
-
-    )match metadata as	Header	{ 
-[ """",""1""]
-	:Foo	//
-
-  ,
-	[ ""\n"", 10 
-,
-// " ++ [27880; 37322]%N ++ runes_of_ascii "
-// c
-
-""{,}""
-	]
-
-    :	Logon
-
     ,
-[ """"	] :
-len
+} packet	chars
 
-    ,
-""\n"":// trailing space 
-	msg_type  ,
+    {  @leftPad (  '\x00'
 
-[ 	 // c
-  	00
-	]
+)char[ 10
 
-:trueish
-	,
-
-10
-:u8x	,
-	}
-	, }  // " ++ [27880; 37322]%N ++ runes_of_ascii "
-root	packet
-
-BodyLength{char[ 42
     ]
 
-body	@calculatedFrom( ""{,}""  )	`tab	here`	// trailing space 
-	, i32
-stringy @calculatedFrom(
-
-    """ ++ [28040; 24687]%N ++ runes_of_ascii """	)
-	, @tag(  0123456789
-
-    )	@rightPad() @tag(00)
-	i16
-	a1
-@lengthOf( pack// a // b
-  )
-	,
-    @tag(
-    10	)
-
-    @leftPad 
-(
-
-    '\x00'	)  // `tick` ""quote"" 'q'
-	  @calculatedFrom(""a\""b"" )
-	repeat 
-char[]  // c
-
-stringy	`
-`  ,  chars
-    `say ""hi""`
-    ,
-
-    @lengthOf( a1	)@leftPad
-(
-'0' ) 
-match
-    Z9_	as Header {00 
-
-//	t
-:
-
-As ,
-}// " ++ [27880; 37322]%N ++ runes_of_ascii "
-		,o
-
-    @calculatedFrom(	""" ++ [128512]%N ++ runes_of_ascii """
-	),
-	@leftPad	//	t
-( )As// trailing space 
-  	@calculatedFrom(""// no comment"" )
-	,	match 
-x_y_z
-as BodyLength  { 
-""x y""// `tick` ""quote"" 'q'
-
-: BodyLength
-,
-
-    """ ++ [28040; 24687]%N ++ runes_of_ascii """
-:packetx
-	,
-	0 :
-	Header 
-,	""x y""	: matchKey
-	    //	t
-  , } ,
-	}// trailing space ")).
-Eval vm_compute in ("<<<M53>>>" ++ check (runes_of_ascii "root
-packet u {
-    char[007 ]x_y_z
-`two words` , int16 u8x
-    @calculatedFrom( ""packet""
-    )
-    // @lengthOf(
-    ,
-    float64
-    falsey
-@calculatedFrom( ""\" ++ [233]%N ++ runes_of_ascii """ ) `u8 x,`
-    ,
-    trueish @calculatedFrom(
-    """ ++ [233]%N ++ runes_of_ascii "t" ++ [233]%N ++ runes_of_ascii """ )
-`tab	here` , @tag( 1	) repeat char[
-4294967296 ]
-    // " ++ [128512]%N ++ runes_of_ascii " emoji
-    u , match
-    // " ++ [27880; 37322]%N ++ runes_of_ascii "
-    i8i8
-    //
-    as // " ++ [128512]%N ++ runes_of_ascii " emoji
-o
-    { [""a\\""
-    ]:
-    matchKey,[ 0123456789
-    //x
-    , ""x y""  , 0 ,
-/// triple
-/// triple
-00 , ""a	b"" ,""{,}"" , // a // b
-""{,}"" ,
-007 ] :
-u8x,
-255 : u128 , [
-""" ++ [28040; 24687]%N ++ runes_of_ascii """
-    , 0123456789	,65535 ,
-    // a // b
-    ""\n"" ] : _x, 7 :
-falsey} , @leftPad ( )// " ++ [128512]%N ++ runes_of_ascii " emoji
-charz @lengthOf(A ) , // `tick` ""quote"" 'q'
-} root packet stringy
-{
-    repeat
-    MetaDataX {float32
-T , string
-    x_y_z `a\`
-, repeat	_x  zchar`u8 x,` , }
-    , } packet Foo {
-    @lengthOf(  roots
-    ) calculatedFrom a1, zchar[ 0123456789]	_x,
-// @lengthOf(
-// trailing space 
-match //
-roots as MetaDataX // c
-{ /// triple
-42 :	_x ,
-3// a // b
-:msg_type  7 : a1, """"	:i8i8 , //x
-[ """ ++ [233]%N ++ runes_of_ascii "t" ++ [233]%N ++ runes_of_ascii """ ]: i8i8 , 00 : leftPad ,
-    } , @calculatedFrom( // @lengthOf(
-"""" ) char[  00 // c
-]
-Foo
-@lengthOf( uint8x) ,  f32 chars , }packet
-    metadata
-    //	t
-    { } MetaData i64_ // packet A { u8 x, }
-{ lengthOf options1 ,
-// @lengthOf(
-//x
-a1 A,
-    x Header ,
-    }
-")).
-Eval vm_compute in ("<<<M1758>>>" ++ check (runes_of_ascii "
-packet calculatedFrom {  // a // b
-    string  charz
-`two words` 
-    //	t
-      //x
-    ,
-	}
-packet stringy
-{
-    @lengthOf(msg_type 
-)
-
-crc
-        // " ++ [128512]%N ++ runes_of_ascii " emoji
-
-  , @leftPad
-    ( '0' 
-)
-crc	@lengthOf(
-u128 //	t
-  )
-	,	@leftPad	(
-    ' ' ) match x_y_z as	rootA { [// @lengthOf(
-
-3
-	,255 ]
-:
-	int ""1""
-
-    : o ,  // a // b
+    len
+	@calculatedFrom( ""a	b"") 
+,@tag(00)@tag( 
 10
-:
-tag
-    , // c
 
-10 	 // " ++ [128512]%N ++ runes_of_ascii " emoji
-:
-	Header ,
-3: a1
+)uint64  matchKey
+    , x_y_z {	repeat 	 // packet A { u8 x, }
+  string
 
-    ,
+rootA`doc`  ,
 
-""" ++ [128512]%N ++ runes_of_ascii """: packetx  ,
-} 
-	// packet A { u8 x, }
-// packet A { u8 x, }
-    	,	match 
-        // " ++ [27880; 37322]%N ++ runes_of_ascii "
-	// a // b
-	o
-    as  x	//x
+    tag// packet A { u8 x, }
+  ,
+repeat char  
+      //x
+	//	t
+	MetaDataX
 
-	{
-
-    ""a	b""	: u8x 
-,  }  , @rightPad	( 
-)repeat
-u 
-packetx,	T  // " ++ [27880; 37322]%N ++ runes_of_ascii "
-		,
-repeat
-
-Logon ,
-	T
-
-{repeat x_y_z , // a // b
-  i8
-
-    crc
-`two words` ,
-
-char[]  calculatedFrom	@calculatedFrom( ""x y""
-)
-    ,
-    },
-roots 
-calculatedFrom
-
-    , @lengthOf(asx
-
-    )
-repeat
-
-    x_y_z	{	T 
-matchKey  , }, }
-
-    options
-{float	=
-
-char[
-
-1 ] 
-; msg_type  // c
-  =
-    i8	x
-=
-	    //
-    // `tick` ""quote"" 'q'
-  zchar[
-    7
-];
-    f32a
-=
-""\n""
-} ")).
-Eval vm_compute in ("<<<M28>>>" ++ check (runes_of_ascii "options
-    { string_
-= false
-    ; falsey  = char[// " ++ [128512]%N ++ runes_of_ascii " emoji
-4294967296 ] ; } packet
-    zchar{match float as len { [ """ ++ [233]%N ++ runes_of_ascii "t" ++ [233]%N ++ runes_of_ascii """ ]:
-matchKey
-    , 3 : // " ++ [27880; 37322]%N ++ runes_of_ascii "
-u [ 4294967296
-, ""1"" ] :
-// `tick` ""quote"" 'q'
-// c
-zchar , } // c
-,} MetaData
-    // @lengthOf(
-    T {
-// c
-// a // b
-}	packet packetx  { uint16 uint8x @calculatedFrom( ""it's"" ) ,
-stringy { i16 crc
-`{ , }`	, }
-, zchar[ 00
-] x
 ,
-    zchar{ uint64 tag , zchar
-f32a	`say ""hi""` , uint32 A `{ , }` , match _x as
-falsey
-{ [ 007// " ++ [128512]%N ++ runes_of_ascii " emoji
+int64
+    asx
+	// 50% %s
+  	,} , 	 // trailing space 
+    	i16
+	stringy,
+	match 
+x_y_z  as
+BodyLength//x
+		{ [  ""\" ++ [233]%N ++ runes_of_ascii """ ,
+""" ++ [28040; 24687]%N ++ runes_of_ascii """,
+	7
+
 ,
-    """ ++ [128512]%N ++ runes_of_ascii """] :
-    matchKey// " ++ [128512]%N ++ runes_of_ascii " emoji
-[ 0123456789,3 ] : T
-// " ++ [128512]%N ++ runes_of_ascii " emoji
-// `tick` ""quote"" 'q'
-1: Foo ,
-}
-    ,// trailing space 
-} ,A ,
-    zchar[
-    // packet A { u8 x, }
-    4294967296 ] string_ @lengthOf( float ) ,match rootA as As
-    { [ ""it's"",
-255 , 0123456789 ,
-// packet A { u8 x, }
-//	t
-""" ++ [233]%N ++ runes_of_ascii "t" ++ [233]%N ++ runes_of_ascii """	, ""{,}"" ,	""abc""
-    , """ ++ [233]%N ++ runes_of_ascii "t" ++ [233]%N ++ runes_of_ascii """]:int, 4294967296 : tag , } , }
-")).
-Eval vm_compute in ("<<<M1412>>>" ++ check (runes_of_ascii "packet leftPad {
-    //
-    i8 stringy @calculatedFrom(""" ++ [128512]%N ++ runes_of_ascii """),
-    int @calculatedFrom(""a	b"") `it's`,
-    @leftPad()
-    @tag(0123456789)
-    int32 u8x,
-    @lengthOf(A)
-    float64 u128 @calculatedFrom(""a\\""),//x
-}
+    0	,
+	7 ,  4294967296
+	]
+    :
 
-options {
-    //x
-    Pad = 0
-    u = ' '
-}
+    A
 
-MetaData a1 {
-    char[] metadata `// not a comment`,
-}
+, // " ++ [128512]%N ++ runes_of_ascii " emoji
+},
 
-packet Foo {
-    @tag(42)
-    repeat BodyLength,
-    int8 metadata `{ , }`,
-    @leftPad()
-    // " ++ [27880; 37322]%N ++ runes_of_ascii "
-    @calculatedFrom(""`tick`"")
-    @calculatedFrom(""a	b"")
-    u32 stringy,
-    @lengthOf(roots)
-    zchar[0] msg_type @lengthOf(i64_) `tab	here`,
-    i8 Header `{ , }`,
-    char[7] trueish @lengthOf(packetx),
-    u64 charz `
-    `,
-    zchar[65535] repeatCount `it's`,
-    match calculatedFrom as calculatedFrom {
-        ""a	b"" : roots,
-        42 : MetaDataX,
-    },
-}")).
-Eval vm_compute in ("<<<M1429>>>" ++ check (runes_of_ascii "  // top
-	MetaData// c0
-  Packet // c1
-  	{  // c2
-	}  // c3
-	packet	// c4
-    	charz  // c5
-	{  // c6
-    Foo  // c7
-	asx  // c8
-`it's`	// c9
-	  ,  // c10
-  @lengthOf( // c11
-T  // c12
-  )	// c13
-	@calculatedFrom( // c14
-  """" // c15
-)  // c16
-  	@calculatedFrom(	// c17
-  	""x y"" // c18
-	  ) // c19
-  zchar[// c20
-
-	007 // c21
-	]  // c22
-    repeatCount	// c23
-  @lengthOf( 	 // c24
-		int	// c25
-  )	// c26
-    	`a\`	// c27
-	, 	 // c28
-  i8	// c29
-	  string_ 	 // c30
-      , 	 // c31
-  repeat	// c32
-    options1	// c33
-      Pad // c34
-,// c35
-
-}  // c36
-  root	// c37
-
-packet	// c38
-  Packet // c39
-    {  // c40
-int8	// c41
-
-float	// c42
-      `doc`  // c43
-	, // c44
-
-  } // c45
-")).
-Eval vm_compute in ("<<<M154>>>" ++ check (runes_of_ascii "packet BodyLength
-    // a // b
-    {@rightPad (
-'\x00' )
-u8x/// triple
-,  @tag(  007
-) @calculatedFrom( ""packet""	) repeat  uint8x x_y_z, }
-    MetaData A {
-    // packet A { u8 x, }
-    Z9_ // a // b
-f32a ,
-    zchar[ 255// a // b
-]
-    msg_type`say ""hi""` ,char[ 1	]Logon  `tab	here` ,//
-}
-packet uint8x {  @calculatedFrom(
-""" ++ [28040; 24687]%N ++ runes_of_ascii """ )@tag(// `tick` ""quote"" 'q'
-65535)	u32 int
-@lengthOf( u8x )
-`say ""hi""`
-,	@leftPad ( ' ') stringy //
-{
-    string_ A ,
-    char[ 4294967296
-] i8i8 `" ++ [233]%N ++ runes_of_ascii "`	, char[]  Logon
-,
-string
-x_y_z@lengthOf(	Packet ),
-} , zchar[	4294967296 ]
-int	`{ , }` , }
-// trailing space 
-// " ++ [27880; 37322]%N ++ runes_of_ascii "
-packet u8x
-    { }
-// a // b
-")).
-Eval vm_compute in ("<<<M1536>>>" ++ check (runes_of_ascii "options {
-    Header = u32;
-}
-
-options {
-    i8i8 = f64;
-    body = zchar[00];
-}
-
-//
-MetaData BodyLength {
-    // trailing space 
-}// " ++ [27880; 37322]%N ++ runes_of_ascii "
-
-options {
-    Logon = u64
-    As = true
-    i64_ = '\x00';
-}
-
-root packet asx {
-    @tag(4294967296)
-    roots @lengthOf(A),
-    repeat uint8 u128,
-    int32 i64_,
-    u8 u ``,
-    @lengthOf(len)
-    uint64 matchKey,
-    match rootA as stringy {
-        1 : string_,
-        7 : charz,
-        255 : u128,
-        [0, 0123456789, 1, 007] : len,
-        10 : trueish,
-    },
-    @rightPad()
-    char[7] int @lengthOf(x) `two words`,
-}")).
-Eval vm_compute in ("<<<M1394>>>" ++ check (runes_of_ascii "//x
-root packet float {
-    options1 A,
-    @tag(42)
-    u8x {
-        tag @calculatedFrom(""\" ++ [233]%N ++ runes_of_ascii """) `tab	here`,
-    },
-    int16 asx,
-    @lengthOf(o)
-    @rightPad()
-    repeat int Logon,
-    @calculatedFrom(""// no comment"")
-    @leftPad('\x00')
-    @rightPad('0')
-    zchar[65535] o `
-    `,
-    repeat As {
-        //x
-        repeat uint16 o,
-        repeat char[1] o,
-        u128 metadata,
-        repeat char[7] Header,
-    },
-    @tag(0123456789)
-    a1 tag,
-    float32 asx,
-    repeat len ``,
-}")).
-Eval vm_compute in ("<<<M138>>>" ++ check (runes_of_ascii "packet Header{ char[	10
-] A`it's` , @calculatedFrom(	""" ++ [28040; 24687]%N ++ runes_of_ascii """)calculatedFrom // a // b
-@lengthOf( zchar ) `tab	here` ,  u32	BodyLength,
-@lengthOf(
-    stringy  ) //
-@rightPad (
-    ' ') @tag(
-0123456789 )
-body{ match i8i8 as
-Foo
-{ [ 7 ,	""CRC32"" ] : options1 ,[""a\""b"" , """ ++ [128512]%N ++ runes_of_ascii """ ,
-    ""it's""
-    , ""a	b"" ,
-""// no comment"" , ""it's"" , 7,""abc""  ] :
-As  ,
-1 :
-_x
-// " ++ [128512]%N ++ runes_of_ascii " emoji
-//
-} , repeat  uint8x{crc
-@calculatedFrom( ""a\\""
-), } ,
-    repeat  i8 tag ,// " ++ [128512]%N ++ runes_of_ascii " emoji
-}
-, }
-
-")).
-Eval vm_compute in ("<<<M0>>>" ++ check (runes_of_ascii "packet leftPad// trailing space 
-{@tag( 10 )
-    @tag( 007 ) @lengthOf(	a1 )
-// a // b
-//
-repeat metadata
-    ,
-} // " ++ [128512]%N ++ runes_of_ascii " emoji
-options
-    // @lengthOf(
-    { lengthOf
-= """ ++ [128512]%N ++ runes_of_ascii """	;
-}  packet T
-    // " ++ [27880; 37322]%N ++ runes_of_ascii "
-    { A
-{
-//
-// `tick` ""quote"" 'q'
-tag@calculatedFrom(""abc"")
-, }
-    , @lengthOf( matchKey
-    ) string	Header @lengthOf( metadata
-) ,leftPad
-    // trailing space 
     @calculatedFrom(
-""a\""b"" )`crlf
-line`,}
-")).
-Eval vm_compute in ("<<<M1804>>>" ++ check (runes_of_ascii "options
-    {
-	falsey 
-= int64 
-; 
-u8x
-	=
-    uint32 uint8x=// " ++ [128512]%N ++ runes_of_ascii " emoji
-zchar[ 1 
-]
-	// @lengthOf(
-	/// triple
-  ; leftPad 
-= ""a	b""
-; calculatedFrom
-	=
-	false
-;
+    ""\n"" )
+    @leftPad 
+	    //
 
-    } MetaData
-    Packet
+  ( 
+)
+	f64 
+msg_type
 
-    { zchar[
-7  ]
+    ,repeat
 
-    As
+    Logon
+	`say ""hi""`
+    , @tag(
+007)
+match
+crc
+as
 
-, }
-root  packet pack
-	{
-@leftPad	( ) @tag(  // trailing space 
-		7	)
-zchar[3] u @lengthOf(
+    msg_type  {
+	[ ""a\\"" 
+,
 
-    // @lengthOf(
-  // trailing space 
-    x
-)	,	} ")).
-Eval vm_compute in ("<<<M1733>>>" ++ check (runes_of_ascii "
+0123456789 ,
+""`tick`"" ,
+	""" ++ [233]%N ++ runes_of_ascii "t" ++ [233]%N ++ runes_of_ascii """
 
-  options 
-{
-a1 =	'\x00'
-As	= ""{,}"" 
-u8x
+,
+    //
+// trailing space 
+  	""{,}"" , 	 // a // b
+	255  ,
+	0123456789 
+      //
+  ]: // packet A { u8 x, }
+	  Header
+	0123456789
+	:
+len // c
 
-    =	//x
+,
+65535 : BodyLength	, ""CRC32""
+    :
 
-""a	b""
+    string_	// " ++ [128512]%N ++ runes_of_ascii " emoji
+,
+    4294967296
 
-;	asx
-	=
-u64
-;
-o
-// @lengthOf(
-	// c
-    	=
-0123456789 } 
-packet 
-Header
-{
-//
-    @lengthOf(
-    x 	 // trailing space 
-    ) 
-
-// " ++ [27880; 37322]%N ++ runes_of_ascii "
-	repeat  falsey
-    {	repeatCount
+    :  len
+,
+""" ++ [28040; 24687]%N ++ runes_of_ascii """:
 trueish
-    `u8 x,` , }
+}
 
+    ,repeat
+
+string u
+	,
+	lengthOf Z9_  `{ , }`
+,
+	} // 50% %s
+  	packet 
+trueish
+
+    {
+
+f32
+Logon	@calculatedFrom(
+
+""1"" )
+    ,  i64
+
+matchKey@calculatedFrom( ""x y""// a // b
+  )	//x
+    `" ++ [28040; 24687; 31867; 22411]%N ++ runes_of_ascii "` 
+,i8i8`it's` , msg_type,	uint8
+	lengthOf,
+	int
+
+trueish , char[ 0123456789 ] uint8x ,
+	i8
+
+    int@lengthOf( msg_type	)
+
+`say ""hi""` , @rightPad 
+(
+) repeat f64 Z9_,
+metadata{  falsey@calculatedFrom(
+	""abc""
+	)
     ,
-	// `tick` ""quote"" 'q'
-  	// " ++ [128512]%N ++ runes_of_ascii " emoji
-  zchar[65535  ]
 
-    x 
+} 	 //
+		,	}")).
+Eval vm_compute in ("<<<M7>>>" ++ check (runes_of_ascii "options// @lengthOf(
+{
+    rootA=	""x y"";
+trueish// a // b
+=
+    0 Header =""1"" }
+    root packet packetx{ u32 uint8x ,
+u A ,// " ++ [128512]%N ++ runes_of_ascii " emoji
+i16 body @lengthOf(A )
+,
+@lengthOf(
+    u8x
+    // 50% %s
+    )
+    u8x @calculatedFrom( /// triple
+""abc"" ) ,  @tag(
+    42
+)match	float as a1	{ [ """" ] : pack ,""""
+: leftPad ,7
+:f32a , 3
+:
+    i8i8
+, 255
+: string_	, } // c
+, metadata``	, /// triple
+uint8 rootA// packet A { u8 x, }
+, }// trailing space 
+packet zchar { // c
+@calculatedFrom( ""it's"") uint64
+//	t
+// packet A { u8 x, }
+int
+, char
+int ,i16 float // @lengthOf(
+, asx	, // c
+char[	7] Packet
+    @lengthOf( body)
+    `" ++ [28040; 24687; 31867; 22411]%N ++ runes_of_ascii "`
+, } packet stringy
+// " ++ [128512]%N ++ runes_of_ascii " emoji
+//	t
+{
+//x
+//	t
+@calculatedFrom(""abc"" ) zchar[
+65535 /// triple
+] Packet ,// @lengthOf(
+@tag(42 // " ++ [27880; 37322]%N ++ runes_of_ascii "
+)
+    // `tick` ""quote"" 'q'
+    @leftPad()
+    char[]
+falsey ,i8i8
+x `" ++ [28040; 24687; 31867; 22411]%N ++ runes_of_ascii "`,@tag(
+255 ) u128
+    {
+    f32 //
+uint8x
+`u8 x,`, o @calculatedFrom( ""a\""b"")
+// 50% %s
+//x
+, char[] charz `
+` , }, @calculatedFrom(
+""1"" )
+    repeat i8i8 { zchar[0 ] int , } , @tag( 007 )repeat i64
+Logon
+`
+` , repeat
+    char[ 0 ] matchKey `crlf
+line` ,@calculatedFrom(  ""a\\"") @tag(
+    42
+)	@leftPad // 50% %s
+(
+'0'  ) match o as
+x_y_z
+    // " ++ [27880; 37322]%N ++ runes_of_ascii "
+    { [ // `tick` ""quote"" 'q'
+""" ++ [128512]%N ++ runes_of_ascii """ , ""x y"" , 0123456789 , ""CRC32""// c
+,""it's"",
+    //
+    007
+,
+3 ,
+007 // " ++ [27880; 37322]%N ++ runes_of_ascii "
+]
+:Packet [
+    255 ,  ""x y""	]: x_y_z ,} ,}
+//	t
+")).
+Eval vm_compute in ("<<<M380>>>" ++ check (runes_of_ascii "options {
+	StringPrefixLenType = u16;
+	ArrayPrefixLenType = u16;
+}
+
+packet SampleBinary {
+	uint16 MsgType `" ++ [28040; 24687; 31867; 22411]%N ++ runes_of_ascii "`,
+	u16 BodyLenght @lengthOf(Body) `" ++ [28040; 24687; 20307; 38271; 24230]%N ++ runes_of_ascii "`,
+	match MsgType as Body {
+		1 : Logon,
+		2 : Logout,
+		3 : Heartbeat,
+		4 : RiskControlRequest,
+		5 : RiskControlResponse,
+	},
+		@calculatedFrom(""CRC32"")
+	u32 Ckecksum `" ++ [26657; 39564; 21644]%N ++ runes_of_ascii "`,
+}
+
+packet Logon {
+	 @leftPad('0')
+	char[10] UserName `" ++ [29992; 25143; 21517]%N ++ runes_of_ascii "`,
+	string Password `" ++ [23494; 30721]%N ++ runes_of_ascii "`,
+	uint64 ClientId `" ++ [23458; 25143; 31471]%N ++ runes_of_ascii "ID`,
+	u16 HeartbeatInterval `" ++ [24515; 36339; 38388; 38548]%N ++ runes_of_ascii "`,
+}
+
+packet Logout {
+	  @rightPad('0')
+	char[10] UserName `" ++ [29992; 25143; 21517]%N ++ runes_of_ascii "`,
+	uint64 ClientId `" ++ [23458; 25143; 31471]%N ++ runes_of_ascii "ID`,
+}
+
+packet Heartbeat {
+}
+
+packet RiskControlRequest {
+	string UniqueOrderId `" ++ [21807; 19968; 35746; 21333; 21495]%N ++ runes_of_ascii "`,
+	char[16] ClOrdID `" ++ [23458; 25143; 35746; 21333; 21495]%N ++ runes_of_ascii "`,
+	char[3] MarketID `" ++ [24066; 22330]%N ++ runes_of_ascii "id`,
+	char[12] SecurityID `" ++ [35777; 21048; 20195; 30721]%N ++ runes_of_ascii "`,
+	char Side `" ++ [20080; 21334; 26041; 21521]%N ++ runes_of_ascii "`,
+	char OrderType `" ++ [35746; 21333; 31867; 22411]%N ++ runes_of_ascii "`,
+	u64 Price `" ++ [20215; 26684]%N ++ runes_of_ascii "`,
+	u32 Qty `" ++ [25968; 37327]%N ++ runes_of_ascii "`,
+	repeat string ExtraInfo `" ++ [38468; 21152; 20449; 24687]%N ++ runes_of_ascii "`,
+	repeat SubOrder {
+			char[16] ClOrdID `" ++ [23376; 35746; 21333; 21495]%N ++ runes_of_ascii "`,
+			u64 Price `" ++ [23376; 35746; 21333; 20215; 26684]%N ++ runes_of_ascii "`,
+			u32 Qty `" ++ [23376; 35746; 21333; 25968; 37327]%N ++ runes_of_ascii "`,
+		},
+}
+
+packet RiskControlResponse {
+	string UniqueOrderId `" ++ [21807; 19968; 35746; 21333; 21495]%N ++ runes_of_ascii "`,
+	i32 Status `" ++ [29366; 24577]%N ++ runes_of_ascii "`,
+	string Msg `" ++ [32467; 26524; 20449; 24687]%N ++ runes_of_ascii "`,
+	repeat Detail,
+}
+
+packet Detail {
+	string RuleName `" ++ [35268; 21017; 21517; 31216]%N ++ runes_of_ascii "`,
+	u16 Code `" ++ [21407; 22240; 20195; 30721]%N ++ runes_of_ascii "`,
+}")).
+Eval vm_compute in ("<<<M1358>>>" ++ check (runes_of_ascii "  options{
+LittleEndian
+
+    =
+false 
+;
+StringPrefixLenType
+=
+u16
+
+    ;
+	ArrayPrefixLenType=u8
+
+    ;
+FixedStringPadChar
+=	'0'
+
+    ;
+} packet
+    Leg 
+{
+zchar[1
+] Ref
+	,
+
+repeat
+string
+    count, repeat InMsgkind21
+
+{
+
+repeat
+
+char[ 2
+	]
+price
+    , uint64 
+sym
+    ,
+    zchar[  9
+    ]
+msgKind 
 , 
 }
-")).
-Eval vm_compute in ("<<<M12>>>" ++ check (runes_of_ascii "options {falsey =int64; u8x = uint32	uint8x =// " ++ [128512]%N ++ runes_of_ascii " emoji
-zchar[ 1
+
+,
+
+zchar[ 5 ] Note,  }
+	packet
+	Ack {	u16 seqNo
+    ,  repeat
+
+    char[1
+    ]
+	Acct 
+,
+
+    @leftPad	( ' '
+    ) 
+char[
+
+    4] msgKind ,repeat InTag747{Leg	, }
+, 
+repeat	string Tail
+    , Leg	,}
+	packet Trade
+
+{  u64 
+clOrdID
+
+, repeat
+
+InLastpx24
+{
+char[
+
+    10 ]	Note
+	,
+char[
+3
 ]
-// @lengthOf(
-/// triple
-; leftPad =
-    ""a	b"";
-    calculatedFrom
-=
-    false ;	}
-MetaData Packet
-{  zchar[
-7]  As ,} root packet	pack {
-@leftPad ( )	@tag(// trailing space 
-7 ) zchar[ 3 ] u	@lengthOf(
-// @lengthOf(
-// trailing space 
-x ),
-}
-")).
-Eval vm_compute in ("<<<M1460>>>" ++ check (runes_of_ascii "options {
-}
+    Qty , repeat  char[
+    2 ]  Side2
+	,
+	Ack
 
-MetaData string_ {
-    u32 matchKey `u8 x,`,
-    string MetaDataX,
-    uint8 Logon,
-    uint64 options1,
-    char[00] len `tab	here`,
-    u8 options1,
-}// a // b
-
-packet a1 {
-    chars,
-    char[] i64_ @lengthOf(stringy),
-    char T,
-    repeat i8 charz `a\`,
-}")).
-Eval vm_compute in ("<<<M139>>>" ++ check (runes_of_ascii "packet//x
-x_y_z {rootA @lengthOf( o ) `two words` ,} MetaData f32a{
-trueish
-    // packet A { u8 x, }
-    x , }
-    MetaData body
-    { u128 pack , f64
-    // @lengthOf(
-    float	, char[ 65535
-//	t
-/// triple
-] tag `" ++ [233]%N ++ runes_of_ascii "`// c
-,  } // " ++ [128512]%N ++ runes_of_ascii " emoji")).
-Eval vm_compute in ("<<<M350>>>" ++ check (runes_of_ascii "MetaData Pad
-{ i64 Packet `{ , }`
-    , // `tick` ""quote"" 'q'
-repeatCount  trueish // packet A { u8 x, }
-`say ""hi""`	, f32 pack`// not a comment` ,// `tick` ""quote"" 'q'
-u32
-calculatedFrom ,char //	t
-zchar
-,}
-")).
-Eval vm_compute in ("<<<M121>>>" ++ check (runes_of_ascii "packet u128 { @calculatedFrom(  ""a	b"" ) // packet A { u8 x, }
-@leftPad( ' '
-) //	t
-@lengthOf(
-Header // packet A { u8 x, }
-) char[10
-    ] crc@lengthOf(
-len ) , } MetaData i8i8 { }
-")).
-Eval vm_compute in ("<<<M1195>>>" ++ check (runes_of_ascii "// top
-packet
-    // c0
-body
-    // c1
-{
-    // c2
-i32
-    // c3
-f32a
-    // c4
-`{ , }`
-    // c5
 ,
-    // c6
-}
-    // c7
-options
-    // c8
-{
-    // c9
-}
-    // c10
-")).
-Eval vm_compute in ("<<<M461>>>" ++ check (runes_of_ascii "packet uint8x
-{ match pack
-    as msg_type	{
-    0123456789 :	float
-}
-,
-} packet packet //	t
-a1
-    { } options {packetx
-    = '\x00'	; u128= ""a	b""  ; }
-")).
-Eval vm_compute in ("<<<M150>>>" ++ check (runes_of_ascii "packet
-    //	t
-    Logon {
-metadata
-@calculatedFrom( ""a\\"" ) , @tag( 42 ) // " ++ [128512]%N ++ runes_of_ascii " emoji
-@tag(	65535 )
-repeat u16 o `line1
-line2` ,
-} packet float { }
-
-")).
-Eval vm_compute in ("<<<M547>>>" ++ check (runes_of_ascii "%packet uint8x
-{ match pack
-    as msg_type	{
-    0123456789 :	float
-}
-,
-} packet //	t
-a1
-    { } options {packetx
-    = '\x00'	; u128= ""a	b""  ; }
-")).
-Eval vm_compute in ("<<<M502>>>" ++ check (runes_of_ascii "packet uint8x
-{ match pack
-    as msg_type	{
-    0123456789 :	float
-}
-,
-} packet //	t
-a1
-    { } options {packetx
-    = ;	'\x00' u128= ""a	b""  ; }
-")).
-Eval vm_compute in ("<<<M433>>>" ++ check (runes_of_ascii "packet uint8x
-{ match pack
-    as msg_type	{
-    ""`tick`"" :	float
-}
-,
-} packet //	t
-a1
-    { } options {packetx
-    = '\x00'	; u128= ""a	b""  ; }
-")).
-Eval vm_compute in ("<<<M684>>>" ++ check (runes_of_ascii "// @lengthOf(
-packet i8i8 { u128 o , }
-options { MetaDataX = true;
-    BodyLength =""packet"" x_y_z= 007
-crc //x
-= ""abc"" ;
-    msg_type =
-i16 } }")).
-Eval vm_compute in ("<<<M694>>>" ++ check (runes_of_ascii "// @lengthOf(
-packet i8i8 { u128 o , }
-options { MetaDataX = true;
-    = BodyLength""packet"" x_y_z= 007
-crc //x
-= ""abc"" ;
-    msg_type =
-i16 }")).
-Eval vm_compute in ("<<<M1627>>>" ++ check (runes_of_ascii "
-MetaData
-leftPad
-{	chars
-MetaDataX	,	} packet repeatCount
-	{
-
-    char[ 
-255 ] uint8x
-	`" ++ [233]%N ++ runes_of_ascii "`
-,
-	} MetaData 
-// c
-
-  pack
-{  As 
-Foo, }
-")).
-Eval vm_compute in ("<<<M719>>>" ++ check (runes_of_ascii "// @lengthOf(
-packet i8i8 { u128 o , }
-options { MetaDataX = true;
-     =""packet"" x_y_z= 007
-crc //x
-= ""abc"" ;
-    msg_type =
-i16 }")).
-Eval vm_compute in ("<<<M1854>>>" ++ check (runes_of_ascii "  packet
-A { 
-match
-k as
-n
-
-{
-    [
-	""a""  ,""bb""
+repeat InX47  {
+    Ack,
+	}
     ,
-	007 
-,	""d"" ,
 
-""e"" 
-,66,
+    }
+	,
+} root
 
-""g"",	""h""  ,
+    packet Heartbeat  {
 
-9
-	, ""j""	]
-	:	B,	2
+repeat
+    u64 
+Acct  ,	string	lastPx ,
+u8
+Side2
 
-: 
-C }
+,match
+Side2
+    as  Body {2
+    : 
+Trade
 
+    , 
+157 : Ack
+    ,46
+
+    : 
+Leg,
+}  ,
+
+    u32
+
+sym 
+@calculatedFrom(	""CRC32""
+
+    ) 
 ,
-}")).
-Eval vm_compute in ("<<<M1398>>>" ++ check (runes_of_ascii "packet msg_type {
-    zchar[65535] stringy @calculatedFrom(""" ++ [233]%N ++ runes_of_ascii "t" ++ [233]%N ++ runes_of_ascii """),
-    @tag(0)
-    repeat i64_,
+
 }
-// packet A { u8 x, }")).
-Eval vm_compute in ("<<<M1169>>>" ++ check (runes_of_ascii "MetaData leftPad { chars MetaDataX , } packet repeatCount { char[ 255 ] uint8x // c
-`" ++ [233]%N ++ runes_of_ascii "` , } MetaData pack { As Foo , }")).
-Eval vm_compute in ("<<<M1319>>>" ++ check (runes_of_ascii "
-packet FooBar  {  u8
-	a , }
-    packet  foo_bar
-
-    {  u16 
-b
-
-    , } root
-	packet R{FooBar , foo_bar
-,	}
 ")).
-Eval vm_compute in ("<<<M1816>>>" ++ check (runes_of_ascii "// a // b
-	  packet Pad
-{
-    char[]	// packet A { u8 x, }
-	Z9_
-    @lengthOf(
-Pad	)
-
-    `{ , }`
-,}
-")).
-Eval vm_compute in ("<<<M1415>>>" ++ check (runes_of_ascii "
-
-  packet 
-A { u16 // a
-      len// b
-    @lengthOf( 	 // c
-  body// d
-) 	 // e
-    	`d`  // f
-,	}
-
-")).
-Eval vm_compute in ("<<<M899>>>" ++ check (runes_of_ascii "packet A {
-  match k as n {
-    [1, 22, ""c c"", 4, 5, ""f"", 7, 8, ""i"", 10, 11] : B,
-    2 : C
-  },
+Eval vm_compute in ("<<<M1836>>>" ++ check (runes_of_ascii "root packet len {
+    match x as metadata {
+        [1, 0, """", ""a	b"", 00] : pack,
+        [""// no comment"", ""x y"", """ ++ [233]%N ++ runes_of_ascii "t" ++ [233]%N ++ runes_of_ascii """] : Packet,
+    },
+    repeat lengthOf u128,
+    @calculatedFrom(""it's"")
+    @lengthOf(calculatedFrom)
+    @lengthOf(u)
+    metadata {
+        int8 lengthOf `crlf
+                line`,
+    },
+    @tag(4294967296)
+    calculatedFrom {
+        f32 i64_ `" ++ [233]%N ++ runes_of_ascii "`,
+    },
+    @lengthOf(BodyLength)
+    repeat char[65535] float,
+    @calculatedFrom(""\" ++ [233]%N ++ runes_of_ascii """)
+    i64_ {
+        match stringy as _x {
+            //	t
+            [4294967296, 3] : i8i8,
+            [""a\""b""] : x_y_z,
+            3 : len,
+        },
+    },
+    @tag(0)
+    zchar[7] x_y_z,
+    @lengthOf(Header)
+    repeat u64 As `
+        `,// " ++ [27880; 37322]%N ++ runes_of_ascii "
+    @rightPad()
+    /// triple
+    @rightPad('\x00')
+    u16 Header `{ , }`,
 }")).
-Eval vm_compute in ("<<<M610>>>" ++ check (runes_of_ascii "
-packet
-    asx {match u128 as lengthOf
-{
-//	t
+Eval vm_compute in ("<<<M271>>>" ++ check (runes_of_ascii "root packet // packet A { u8 x, }
+i8i8 {
+@rightPad (// 50% %s
+)char[]	i64_ ,
+string f32a @calculatedFrom( ""a\""b"" )
+// @lengthOf(
+// packet A { u8 x, }
+, @tag(
+    255 ) @calculatedFrom( ""a	b"" )
+    @lengthOf( u128	)match
+float as metadata{
+""\" ++ [233]%N ++ runes_of_ascii """
+    : x_y_z	,
+    10:
 // `tick` ""quote"" 'q'
-255 : x repeat
-    } ,	}")).
-Eval vm_compute in ("<<<M585>>>" ++ check (runes_of_ascii "
-packet
-    asx {match u128 as @lengthOf(
-{
-//	t
 // `tick` ""quote"" 'q'
-255 : x ,
-    } ,	}")).
-Eval vm_compute in ("<<<M69>>>" ++ check (runes_of_ascii "//
-packet metadata
-{ }	MetaData chars
+Packet ,""""
+:asx , } ,
+    @lengthOf( asx  )/// triple
+match
+    matchKey
+// trailing space 
+// c
+as
+Foo{ ""// no comment""
+    : trueish 42 :len ,	42: options1 ""x y"" :
+x_y_z ""CRC32""
+// a // b
+// packet A { u8 x, }
+:  zchar 0123456789 :
+pack ,}
+, } MetaData crc { string  repeatCount , //	t
+char[] a1  ,
+// 50% %s
+// `tick` ""quote"" 'q'
+char msg_type , pack rootA ,  u64  Pad,}")).
+Eval vm_compute in ("<<<M1153>>>" ++ check (runes_of_ascii "// top
+options // c0
+{ // c1
+uint8x // c2
+= // c3
+007 // c4
+; // c5
+lengthOf // c6
+= // c7
+i8 // c8
+; // c9
+} // c10
+packet // c11
+i64_ // c12
+{ // c13
+@calculatedFrom( // c14
+""1"" // c15
+) // c16
+@tag( // c17
+3 // c18
+) // c19
+@lengthOf( // c20
+rootA // c21
+) // c22
+repeat // c23
+int8 // c24
+Packet // c25
+`tab	here` // c26
+, // c27
+} // c28
+packet // c29
+_x // c30
+{ // c31
+matchKey // c32
+x // c33
+`" ++ [28040; 24687; 31867; 22411]%N ++ runes_of_ascii "` // c34
+, // c35
+int32 // c36
+calculatedFrom // c37
+`100% of %d` // c38
+, // c39
+@lengthOf( // c40
+trueish // c41
+) // c42
+Packet // c43
+, // c44
+repeat // c45
+f32 // c46
+o // c47
+, // c48
+} // c49
+")).
+Eval vm_compute in ("<<<M296>>>" ++ check (runes_of_ascii "options{
+u128 = ""// no comment""
+    }  root
+packet Z9_ { repeat
+char[] i8i8,
+float64 MetaDataX , repeat rootA { msg_type@calculatedFrom(
+    ""\" ++ [233]%N ++ runes_of_ascii """ )
+    , match
+float
+    as	_x // " ++ [128512]%N ++ runes_of_ascii " emoji
+{ ""a\""b""
+:u ,[ ""a	b"" // " ++ [27880; 37322]%N ++ runes_of_ascii "
+,
+    ""CRC32"" // a // b
+,10 /// triple
+,
+    007 , 255 , ""x y"", 42 //	t
+, 3 ]: msg_type
+,[
+    ""1"" //	t
+, ""\n"" ,  4294967296
+, ""abc"" ,	""// no comment"" , //x
+""\n"" ,1] //	t
+: int
+    ,[
+    10 ] :As , [ 0
+]	: zchar , 7// " ++ [27880; 37322]%N ++ runes_of_ascii "
+: A , } , } ,	char[]zchar @lengthOf( tag ) , } options { body
+    = ""1"" trueish	= ' '//x
+; }")).
+Eval vm_compute in ("<<<M1443>>>" ++ check (runes_of_ascii "root packet options1 {
+    // " ++ [27880; 37322]%N ++ runes_of_ascii "
+    @tag(0)
+    len leftPad,
+    @calculatedFrom(""" ++ [233]%N ++ runes_of_ascii "t" ++ [233]%N ++ runes_of_ascii """)
+    stringy a1 ``,
+    @rightPad()
+    a1 `" ++ [28040; 24687; 31867; 22411]%N ++ runes_of_ascii "`,
+    char Header @lengthOf(x) `a\`,
+    uint8x Z9_ `it's`,
+    match roots as o {
+        [""{,}"", ""CRC32""] : o,
+        ""CRC32"" : Pad,
+    },// 50% %s
+    @tag(00)
+    zchar[4294967296] x,
+    @lengthOf(repeatCount)
+    uint16 T,
+    @lengthOf(u128)
+    repeat i64_ {
+        repeat u8 MetaDataX `" ++ [233]%N ++ runes_of_ascii "`,
+        repeat u8x `two words`,
+    },
+}// packet A { u8 x, }")).
+Eval vm_compute in ("<<<M1372>>>" ++ check (runes_of_ascii "options {
+    LittleEndian = true;
+    ArrayPrefixLenType = u32;
+    FixedStringPadChar = ' ';
+}
+packet Order {
+    char[5] seqNo,
+    uint8 Px,
+}
+packet Logon {
+    @rightPad('\x00') char[8] Flags,
+    zchar[3] count,
+    repeat Order,
+}
+root packet Party {
+    repeat Logon,
+    repeat char[1] x,
+    u32 price,
+    u32 Side2 @lengthOf(Body),
+    match price as Body {
+        49 : Order,
+        196 : Logon,
+    },
+    u32 f1 @calculatedFrom(""CR\
+C32""),
+}
+")).
+Eval vm_compute in ("<<<M1819>>>" ++ check (runes_of_ascii "// c
+packet A {
+    i64_ `100% of %d`,
+    @calculatedFrom(""packet"")
+    string Z9_ `{ , }`,
+    match BodyLength as matchKey {
+        7 : MetaDataX,
+    },
+    repeat a1 {
+        repeat Pad,
+    },
+    pack T,
+    u64 MetaDataX,
+    @calculatedFrom(""a	b"")
+    tag {
+        u32 body,
+        pack @lengthOf(_x) `it's`,
+        repeatCount,// c
+        repeat int32 BodyLength,
+    },
+    uint64 tag,
+}
+
+options {
+    //x
+}")).
+Eval vm_compute in ("<<<M1177>>>" ++ check (runes_of_ascii "// top
+options // c0a
+  // c0b
+{ f32a
+    // c2
+= // c3
+0 } // c5
+packet trueish // c7a
+  // c7b
+{ // c8
+}
+    // c9
+MetaData _x // c11
+{ char[ // c13a
+  // c13b
+0123456789 // c14
+] // c15a
+  // c15b
+zchar
+    // c16
+, // c17a
+  // c17b
+string // c18
+crc ,
+    // c20
+char[
+    // c21
+1 ] // c23a
+  // c23b
+options1
+    // c24
+, uint8 // c26a
+  // c26b
+repeatCount
+    // c27
+, // c28
+} // c29
+")).
+Eval vm_compute in ("<<<M1733>>>" ++ check (runes_of_ascii "packet tag {
+    @tag(00)
+    match x_y_z as Packet {
+        [3] : packetx,
+        [""{,}""] : BodyLength,
+        //x
+        //
+        00 : i8i8,
+        255 : asx,
+    },
+}
+
+packet Packet {
+    @calculatedFrom(""" ++ [233]%N ++ runes_of_ascii "t" ++ [233]%N ++ runes_of_ascii """)
+    match i8i8 as charz {
+        3 : f32a,
+        ""a\\"" : len,
+    },
+    @tag(10)
+    @lengthOf(charz)
+    int,
+    repeat string Foo,
+}")).
+Eval vm_compute in ("<<<M196>>>" ++ check (runes_of_ascii "MetaData // 50% %s
+body
+    {
+    Foo Packet `a\` ,T float , int64
+Logon
+`// not a comment`,
+zchar[ 0	]
+i64_/// triple
+`" ++ [28040; 24687; 31867; 22411]%N ++ runes_of_ascii "` , // `tick` ""quote"" 'q'
+char[7 // @lengthOf(
+] calculatedFrom , int16
+Logon
+    ,
+} MetaData i64_{ int//
+leftPad
+`// not a comment`
+,
+trueish	Logon
+    , string Header `doc`, // packet A { u8 x, }
+}
+")).
+Eval vm_compute in ("<<<M1319>>>" ++ check (runes_of_ascii "packet A {
+    u8 a,
+}
+packet B {
+    u16 b,
+}
+packet C {
+    u32 c,
+}
+root packet M {
+    u16 Kc, u16 Kb, u16 Ka,
+    match Kc as X {
+        9 : A,
+        10 : B,
+    },
+    match Kb as Y {
+        2 : C,
+        1 : A,
+    },
+    match Ka as Z {
+        1 : B,
+    },
+    A, B, C,
+}
+")).
+Eval vm_compute in ("<<<M1397>>>" ++ check (runes_of_ascii "options {
+    LittleEndian = true;
+}
+packet Sub {
+    u8 a,
+    u16 SubSum @calculatedFrom(""CRC16""),
+}
+root packet Frame {
+    u16 MsgType,
+    u16 BodyLen @lengthOf(Body),
+    Sub Body,
+    string note,
+    u16 Checksum @calculatedFrom(""CRC16""),
+    u8 tail,
+}
+")).
+Eval vm_compute in ("<<<M467>>>" ++ check (runes_of_ascii "packet
+    asx { @calculatedFrom(
+""""  ) @tag( 255 )repeat
+// packet A { u8 x, }
+// trailing space 
+int16 u8x
+,
+@tag(
+    //
+    007 )
+    @tag( @tag( 0
+    /// triple
+    ) @tag( 1) u
+    @lengthOf( T ),
+// `tick` ""quote"" 'q'
 //x
-//	t
-{
-    char[ 42	] leftPad `crlf
-line`  ,
-}")).
-Eval vm_compute in ("<<<M622>>>" ++ check (runes_of_ascii "
-packet
-    asx {match u128 as lengthOf
-{
-//	t
+} // " ++ [128512]%N ++ runes_of_ascii " emoji")).
+Eval vm_compute in ("<<<M507>>>" ++ check (runes_of_ascii "packet
+    asx { @calculatedFrom(
+""""  ) @tag( 255 )repeat
+// packet A { u8 x, }
+// trailing space 
+int16 u8x
+,
+@tag(
+    //
+    007 )
+    @tag( 0
+    /// triple
+    ) @tag( 1) u
+    @lengthOf( T T ),
 // `tick` ""quote"" 'q'
-255 : x ,
-    } ,	")).
-Eval vm_compute in ("<<<M1469>>>" ++ check (runes_of_ascii "options {
+//x
+} // " ++ [128512]%N ++ runes_of_ascii " emoji")).
+Eval vm_compute in ("<<<M444>>>" ++ check (runes_of_ascii "packet
+    asx { @calculatedFrom(
+""""  ) @tag( 255 )repeat
+// packet A { u8 x, }
+// trailing space 
+int16 f32
+,
+@tag(
+    //
+    007 )
+    @tag( 0
+    /// triple
+    ) @tag( 1) u
+    @lengthOf( T ),
+// `tick` ""quote"" 'q'
+//x
+} // " ++ [128512]%N ++ runes_of_ascii " emoji")).
+Eval vm_compute in ("<<<M471>>>" ++ check (runes_of_ascii "packet
+    asx { @calculatedFrom(
+""""  ) @tag( 255 )repeat
+// packet A { u8 x, }
+// trailing space 
+int16 u8x
+,
+@tag(
+    //
+    007 )
+    @tag( 
+    /// triple
+    ) @tag( 1) u
+    @lengthOf( T ),
+// `tick` ""quote"" 'q'
+//x
+} // " ++ [128512]%N ++ runes_of_ascii " emoji")).
+Eval vm_compute in ("<<<M501>>>" ++ check (runes_of_ascii "packet
+    asx { @calculatedFrom(
+""""  ) @tag( 255 )repeat
+// packet A { u8 x, }
+// trailing space 
+int16 u8x
+,
+@tag(
+    //
+    007 )
+    @tag( 0
+    /// triple
+    ) @tag( 1) u
+     T ),
+// `tick` ""quote"" 'q'
+//x
+} // " ++ [128512]%N ++ runes_of_ascii " emoji")).
+Eval vm_compute in ("<<<M1337>>>" ++ check (runes_of_ascii "packet Logon {
+    string user,
+}
+root packet Frame {
+    u8 K,
+    match K as Body {
+        1 : Logon,
+        2 : Logout,
+    },
+    Tail,
+}
+packet Logout {
+    u16 reason,
+}
+packet Tail {
+    u32 crc,
+}
+")).
+Eval vm_compute in ("<<<M31>>>" ++ check (runes_of_ascii "MetaData u128
+    {// @lengthOf(
+len x
+    `it's` ,BodyLength
+    Foo
+`doc`, string_ a1 `{ , }`  ,	calculatedFrom u8x `u8 x,`
+, MetaDataX// trailing space 
+matchKey ,
+}
+packet u128	{ }")).
+Eval vm_compute in ("<<<M720>>>" ++ check (runes_of_ascii "packet
+crc
+{repeat  Foo A  `u8 x,` ,	@lengthOf( uint8x ) string string
+matchKey @lengthOf( stringy ) `a\`
+,
+    // c
+    }
+MetaData chars{
+leftPad
+    //	t
+    crc
+`" ++ [233]%N ++ runes_of_ascii "`
+,}")).
+Eval vm_compute in ("<<<M716>>>" ++ check (runes_of_ascii "packet
+crc
+{repeat  F" ++ [127]%N ++ runes_of_ascii "oo A  `u8 x,` ,	@lengthOf( uint8x ) string
+matchKey @lengthOf( stringy ) `a\`
+,
+    // c
+    }
+MetaData chars{
+leftPad
+    //	t
+    crc
+`" ++ [233]%N ++ runes_of_ascii "`
+,}")).
+Eval vm_compute in ("<<<M715>>>" ++ check (runes_of_ascii "packet
+crc
+{repeat  Foo A  `u8 x,` ,	@lengthOf( uint8x ) string
+matchKey @lengthOf( stringy ) `a\`
+,
+    // c
+    }
+MetaData chars{
+leftPad
+    //	t
+    crc
+`" ++ [233]%N ++ runes_of_ascii "`
+,")).
+Eval vm_compute in ("<<<M623>>>" ++ check (runes_of_ascii "MetaData u
+    { } MetaData o
+{ float uint8x
+`100% of %d` ,repeatCount u8x, string_ ,
+leftPad i32
+    Foo , int64 x `two words` , calculatedFrom
+stringy `a\` ,
+}
+")).
+Eval vm_compute in ("<<<M686>>>" ++ check (runes_of_ascii "MetaData u
+    { } MetaData o
+{ float uint8x
+`100% of %d` ,repeatCount u8x, string_ leftPad
+, i32
+    Foo , int64 x `two words` , calculatedFrom
+stringy `a\` ,
+
+")).
+Eval vm_compute in ("<<<M671>>>" ++ check (runes_of_ascii "MetaData u
+    { } MetaData o
+{ float uint8x
+`100% of %d` ,repeatCount u8x, string_ leftPad
+, i32
+    Foo , int64 x `two words` , calculatedFrom
+ `a\` ,
+}
+")).
+Eval vm_compute in ("<<<M1488>>>" ++ check (runes_of_ascii "// top
+options {
+    // c1a
+    // c1b
     LittleEndian = true;
 }
 
 root packet P {
-    repeat char cs,
-    u8 x,
+    // c10
+    u16 a,// c13
+    u32 Sum @calculatedFrom(""CRC32""),
 }")).
-Eval vm_compute in ("<<<M833>>>" ++ check (runes_of_ascii "packet A {
+Eval vm_compute in ("<<<M1643>>>" ++ check (runes_of_ascii "
+options  {} options {
+MetaDataX	=
+char  ;
+
+} MetaData Pad
+    {i8 
+// c
+	metadata 
+, string	stringy
+
+    ,
+    int8 As
+
+`{ , }`,	}
+")).
+Eval vm_compute in ("<<<M1816>>>" ++ check (runes_of_ascii "
+
+  options  {	}  options
+{ MetaDataX =	char;	} 	 // c
+  	MetaData
+Pad
+	{
+	i8	metadata ,
+string
+
+stringy	, int8
+    As `{ , }`,
+	} ")).
+Eval vm_compute in ("<<<M1275>>>" ++ check (runes_of_ascii "packet B {
+    u8 a,
+}
+root packet P {
+    u8 K,
+    match K as Body {
+        1 : B,
+    },
+    u16 L @lengthOf(Body),
+}
+")).
+Eval vm_compute in ("<<<M1249>>>" ++ check (runes_of_ascii "options { } options { MetaDataX = char ; } MetaData Pad { i8 metadata , string stringy , int8 As `{ , }` , } // c
+")).
+Eval vm_compute in ("<<<M1228>>>" ++ check (runes_of_ascii "options { } options { MetaDataX = char ; } MetaData Pad {
+// c
+i8 metadata , string stringy , int8 As `{ , }` , }")).
+Eval vm_compute in ("<<<M913>>>" ++ check (runes_of_ascii "packet A {
   match k as n {
-    [""a"", 22, ""c c"", 4, ""e"", 66] : B
+    [""a"", ""bb"", 007, ""d"", ""e"", 66, ""g"", ""h"", 9, ""j"", ""k"", 12] : B
     2 : C
   },
 }")).
-Eval vm_compute in ("<<<M1650>>>" ++ check (runes_of_ascii "packet A {
-    // a
-    @tag(1)
-    u8 x,// b
-    // c
-    @tag(2)
-    u8 y,
+Eval vm_compute in ("<<<M971>>>" ++ check (runes_of_ascii "packet A {
+    u16 len @lengthOf(body) `%`,
+    u32 crc @calculatedFrom(""CRC32"") `%`,
+    string body,
 }")).
-Eval vm_compute in ("<<<M804>>>" ++ check (runes_of_ascii "packet A {
+Eval vm_compute in ("<<<M882>>>" ++ check (runes_of_ascii "packet A {
   match k as n {
-    [1, ""bb"", 007, ""d""] : B,
+    [""a"", 22, ""c c"", 4, ""e"", 66, ""g"", 8, ""i"", 10] : B,
     2 : C
   },
 }")).
-Eval vm_compute in ("<<<M1540>>>" ++ check (runes_of_ascii "
+Eval vm_compute in ("<<<M1567>>>" ++ check (runes_of_ascii "MetaData
+    f32a// @lengthOf(
+{ // `tick` ""quote"" 'q'
+
+	charz
+    msg_type ,
+
+    } 	 // " ++ [27880; 37322]%N ++ runes_of_ascii "
+")).
+Eval vm_compute in ("<<<M1259>>>" ++ check (runes_of_ascii "
+options	{LittleEndian  =	true
+;
+
+    }root packet
+	P {repeat 
+char  cs
+
+, u8
+x 
+,
+
+}
+")).
+Eval vm_compute in ("<<<M1664>>>" ++ check (runes_of_ascii "packet A {
+    match k as n {
+        [1, 22, ""c c"", 4, 5] : B,
+        2 : C,
+    },
+}")).
+Eval vm_compute in ("<<<M991>>>" ++ check (runes_of_ascii "packet A {
+    u32 crc @calculatedFrom(""%d%s""),
+    @calculatedFrom(""%d%s"") u8 y,
+}")).
+Eval vm_compute in ("<<<M832>>>" ++ check (runes_of_ascii "packet A {
+  match k as n {
+    [1, 22, ""c c"", 4, 5, ""f""] : B,
+    2 : C
+  },
+}")).
+Eval vm_compute in ("<<<M57>>>" ++ check (runes_of_ascii "options {
+asx =""{,}"" } MetaData
+    len
+    { char[] Packet`say ""hi""` , }
+")).
+Eval vm_compute in ("<<<M788>>>" ++ check (runes_of_ascii "packet A {
+  match k as n {
+    [""a"", ""bb"", ""c c""] : B
+    2 : C
+  },
+}")).
+Eval vm_compute in ("<<<M377>>>" ++ check (runes_of_ascii "packet
+    int // 50% %s
+{Logon @calculatedFrom( ""1"") ,} // 50% %s")).
+Eval vm_compute in ("<<<M275>>>" ++ check (runes_of_ascii "  root packet lengthOf { repeatCount { uint64 u8x , }
+    , }")).
+Eval vm_compute in ("<<<M771>>>" ++ check (runes_of_ascii "packet A {
+  match k as n {
+    [1] : B,
+    2 : C
+  },
+}")).
+Eval vm_compute in ("<<<M961>>>" ++ check (runes_of_ascii "MetaData M {
+    u8 x `tab
+	x`,
+    T t `tab
+	x`,
+}")).
+Eval vm_compute in ("<<<M1681>>>" ++ check (runes_of_ascii "options
+	{ 	 // c
+  A
+=
+""// no comment""
+
+}
+
+")).
+Eval vm_compute in ("<<<M1855>>>" ++ check (runes_of_ascii "
 packet
-	body
-{ 	 // c
-    i32 
-f32a `{ , }`
 
-    , } 
-options	{ }")).
-Eval vm_compute in ("<<<M1889>>>" ++ check (runes_of_ascii "
-packet A
-	{B
-	b
+    A {u8	x
     `x
-`	,
-
-B	`x
-`  , 
-repeat B	bs `x
-`	, 
-}
-
-")).
-Eval vm_compute in ("<<<M1102>>>" ++ check (runes_of_ascii "// top
-MetaData
-    // c0
-tag
-    // c1
-{ // c2
-}
-    // c3
-")).
-Eval vm_compute in ("<<<M1679>>>" ++ check (runes_of_ascii "MetaData M {
-    u8 x `a
-    b`,
-    T t `a
-    b`,
-}")).
-Eval vm_compute in ("<<<M1209>>>" ++ check (runes_of_ascii "packet body { i32 f32a `{ , }` // c
-, } options { }")).
-Eval vm_compute in ("<<<M693>>>" ++ check (runes_of_ascii "// @lengthOf(
-packet i8i8 { u128 o , }
-options")).
-Eval vm_compute in ("<<<M31>>>" ++ check (runes_of_ascii "options {
-x=
-""{,}""
-matchKey=  true	; }
-")).
-Eval vm_compute in ("<<<M964>>>" ++ check (runes_of_ascii "root packet A {
+` ,
+    }")).
+Eval vm_compute in ("<<<M962>>>" ++ check (runes_of_ascii "root packet A {
     u8 x `tab
 	x`,
 }")).
-Eval vm_compute in ("<<<M1697>>>" ++ check (runes_of_ascii "packet A {
-    u8 x `a
-    b`,
+Eval vm_compute in ("<<<M525>>>" ++ check (runes_of_ascii "packet
+    asx { @calculatedFrom(")).
+Eval vm_compute in ("<<<M1788>>>" ++ check (runes_of_ascii "packet A {
+    u8 x `d" ++ [133]%N ++ runes_of_ascii "`,// c" ++ [133]%N ++ runes_of_ascii "
 }")).
-Eval vm_compute in ("<<<M978>>>" ++ check (runes_of_ascii "packet A {
- u8 x `d `, // c 
-}")).
-Eval vm_compute in ("<<<M917>>>" ++ check (runes_of_ascii "packet A {
-    u8 x `a
-b`,
-}")).
-Eval vm_compute in ("<<<M1834>>>" ++ check (runes_of_ascii "packet A {
-}// a// b// c")).
-Eval vm_compute in ("<<<M1107>>>" ++ check (runes_of_ascii "MetaData tag // c
-{ }")).
-Eval vm_compute in ("<<<M103>>>" ++ check (runes_of_ascii "packet packetx	{ }")).
-Eval vm_compute in ("<<<M1047>>>" ++ check (runes_of_ascii "// c" ++ [8203]%N ++ runes_of_ascii "
+Eval vm_compute in ("<<<M580>>>" ++ check (runes_of_ascii "MetaData u
+    { } MetaData o")).
+Eval vm_compute in ("<<<M1099>>>" ++ check (runes_of_ascii "options { a = 1 // a
+ ; }")).
+Eval vm_compute in ("<<<M137>>>" ++ check (runes_of_ascii "MetaData f32a {
+    }
+")).
+Eval vm_compute in ("<<<M995>>>" ++ check (runes_of_ascii "packet A {
+}
+// c ")).
+Eval vm_compute in ("<<<M1076>>>" ++ check (runes_of_ascii "// c" ++ [6158]%N ++ runes_of_ascii "
 packet A {
 }")).
-Eval vm_compute in ("<<<M1054>>>" ++ check (runes_of_ascii "packet A {
-}// c" ++ [6158]%N)).
-Eval vm_compute in ("<<<M404>>>" ++ check (runes_of_ascii "packet uint8x")).
-Eval vm_compute in ("<<<M995>>>" ++ check (runes_of_ascii "// c" ++ [5760]%N)).
-Eval vm_compute in ("<<<M727>>>" ++ check (runes_of_ascii "")).
+Eval vm_compute in ("<<<M1170>>>" ++ check (runes_of_ascii "packet x
+// c
+{ }")).
+Eval vm_compute in ("<<<M560>>>" ++ check (runes_of_ascii "MetaData u")).
+Eval vm_compute in ("<<<M310>>>" ++ check (runes_of_ascii "
+//
+")).
